@@ -172,6 +172,41 @@ def pGapName : P (Bytes × Bytes) := fun ts =>
     | none => none
     | some (n, r') => some ((g, n), r')
 
+def pBOp : P BOp := fun ts =>
+  match ts with
+  | "C" :: r => some (.enableCompression, r)
+  | "F" :: r => some (.finish, r)
+  | "S2" :: r => some (.start 2, r)
+  | "S3" :: r => some (.start 3, r)
+  | "S4" :: r => some (.start 4, r)
+  | "S5" :: r => some (.start 5, r)
+  | "Q" :: r => (pQuestion r).map (fun (q, r') => (.question q, r'))
+  | "R" :: r => (pResource r).map (fun (x, r') => (.resource x, r'))
+  | _ => none
+
+def pHeader : P Header := fun ts => do
+  let (id, r) ← pNat ts
+  let (fl, r) ← pFlags r
+  let (op, r) ← pNat r
+  let (rc, r) ← pNat r
+  match fl with
+  | [f0, f1, f2, f3, f4, f5, f6] =>
+    pure ({ id := id, response := f0, opCode := op, authoritative := f1, truncated := f2,
+            recursionDesired := f3, recursionAvailable := f4, authenticData := f5,
+            checkingDisabled := f6, rCode := rc }, r)
+  | _ => none
+
+/-- run a Builder call sequence: one result token per call -/
+def runBuilder (b : Builder) : List BOp → List String
+  | [] => []
+  | op :: ops =>
+    let (b1, e) := b.step op
+    let tok := match e, op with
+      | some err, _ => err.tag
+      | none, .finish => hexOfBytes b1.bytes
+      | none, _ => "."
+    tok :: runBuilder b1 ops
+
 def pScript (s : String) : Option (List Step) :=
   if s == "-" then some [] else
   s.toList.mapM (fun c =>
@@ -196,6 +231,13 @@ def step (_ : Unit) (line : String) : Unit × String :=
       | some (m, []) =>
         if c = "1" then roundTrip m (some []) else if c = "0" then roundTrip m none else "bad-op"
       | _ => "bad-op"
+    | "bseq" :: _pre :: rest =>
+      match pHeader rest with
+      | some (h, r) =>
+        (match pCounted pBOp r with
+         | some (ops, []) => " ".intercalate ("ok" :: runBuilder (newBuilder h) ops)
+         | _ => "bad-op")
+      | none => "bad-op"
     | ["unpack", b] =>
       match parseBytes b with
       | some b => (match unpackMessage b with | .ok m => s!"ok {sMessage m}" | .error e => s!"err {e.tag}")
